@@ -84,12 +84,37 @@ template<typename S, bool IsDouble> static void run(const std::vector<std::strin
     V3 a = quaternionToEulerAngles<S>(q);
     put(a[0]); put(a[1]); put(a[2]);
   } else if (k == "pol") {
-    CartesianCoordinates2<S> p(arg<S>(t, 2), arg<S>(t, 3));
-    PolarCoordinates<S> pc = toPolar<S>(p);
-    put(pc.getRange()); put(pc.getAzimut());
-    CartesianCoordinates2<S> b = toCartesian<S>(pc);
-    put(b.x()); put(b.y());
+    static int alt = 0;
+    if (++alt % 2) {
+      CartesianCoordinates2<S> p(arg<S>(t, 2), arg<S>(t, 3));
+      PolarCoordinates<S> pc = toPolar<S>(p);
+      put(pc.getRange()); put(pc.getAzimut());
+      CartesianCoordinates2<S> b = toCartesian<S>(pc);
+      put(b.x()); put(b.y());
+    } else {
+      // the homogeneous overloads (w = 1) must give the same numbers
+      HomogeneousCoordinates2<S> p(arg<S>(t, 2), arg<S>(t, 3));
+      PolarCoordinates<S> pc = toHomogeneous<S>(p);
+      put(pc.getRange()); put(pc.getAzimut());
+      HomogeneousCoordinates2<S> b = toHomogeneous<S>(pc);
+      put(b.x()); put(b.y());
+      if (b[2] != S(1)) {g_out = "homogeneous-w-not-1";}
+    }
   } else if (k == "sph") {
+    static int alt3 = 0;
+    if (++alt3 % 2 == 0) {
+      // homogeneous overloads (w = 1): range / azimut / elevation and the way back must ignore w
+      HomogeneousCoordinates3<S> p(arg<S>(t, 2), arg<S>(t, 3), arg<S>(t, 4));
+      S r = SphericalTransform::range(p);
+      SphericalCoordinates<S> sc(r, SphericalTransform::azimut(p), SphericalTransform::elevation(p));
+      if constexpr (IsDouble) {sc = toSpherical<S>(p);}   // the public conversion itself where it instantiates
+      put(sc.getRange()); put(sc.getAzimut()); put(sc.getElevation());
+      HomogeneousCoordinates3<S> b = toHomogeneous<S>(sc);
+      put(b.x()); put(b.y()); put(b.z());
+      if (b[3] != S(1)) {g_out = "homogeneous-w-not-1";}
+      flush();
+      return;
+    }
     CartesianCoordinates3<S> p(arg<S>(t, 2), arg<S>(t, 3), arg<S>(t, 4));
     if constexpr (IsDouble) {
       SphericalCoordinates<S> sc = toSpherical<S>(p);
